@@ -8,10 +8,10 @@ before, `A` = the serving peer's advertisement, `env` = content of the sigrefs c
 Hypotheses (all satisfied by the worlds the harness extracts; see the `example`s at the end):
 * `EnvWf env`   — `rad/id`, `rad/sigrefs` are distinct names under `refs/rad`; a sigrefs blob lists a name once;
 * `AncWf env`   — the objects `repository::update` asks about are present (the transport delivered what was
-                  wanted) and two different object ids never compare `Equal` (no annotated tags);
-* `AdvSorted A` — on the `SpecialRefs` path: the advertisement lists every reference once, a remote's
-                  `rad/id` before its `rad/sigrefs` (as `git upload-pack` does). It is necessary:
-                  `special_order_counterexample`.
+                  wanted) and two different object ids never compare `Equal` (no annotated tags).
+There is NO hypothesis on the advertisement `A`: the serving side may list references in any order and any
+number of times (`special_order_regression`, `duplicate_listing_regression`: the two defects this exposed
+were repaired in /repo, 98aa288 and its follow-up).
 
 Full-strength statement of the first sentence (`MatchesExactly` for every changed namespace) is FALSE of the
 current code: `fetch_changed_ns_matches_sigrefs_counterexample` (known finding `stale-unsigned-rad-ref`:
@@ -40,26 +40,25 @@ theorem Blob.valid_iff (b : Blob) : b.valid = true ↔ b.sigOk = true ∧ b.idRo
 application): every namespace is either exactly as before the fetch, or it matches its signed refs up to
 stored `refs/rad/*` references that the new signed refs no longer list. -/
 theorem fetch_changed_ns_matches_up_to_stale_rad (env : Env) (hw : EnvWf env) (hanc : AncWf env)
-    (cfg : Config) (L A : Refdb) (hA : cfg.refsAt = none → AdvSorted A) (k : Key) :
+    (cfg : Config) (L A : Refdb) (k : Key) :
     NsEq (fetch env cfg L A).2 L k ∨ Matches env L (fetch env cfg L A).2 k := by
   rcases fetch_cases env cfg L A with ⟨h, _⟩ | ⟨anchor, stage, sr, l, _, hs, hsr, hl, _, hpost, _⟩
   · left; rw [h]; intro n; rfl
   · rw [hpost]
-    have hsp := specialStage_wf env cfg _ _ _ A hA hs
     obtain ⟨hsorted, hfacts⟩ := loop_remotes_spec hsr hl
-    exact apply_final env hw hanc hsp l.remotes hsorted hfacts L (fun _ _ _ => rfl)
+    exact apply_final env hw hanc l.remotes hsorted hfacts L (fun _ _ _ => rfl)
       (fun _ => Or.inl (fun _ => rfl)) k
 
 /-- **C01, first sentence, partial**: under the hypothesis that every stored `refs/rad/*` reference of the
 namespace (other than `rad/sigrefs`) is listed in the new signed refs, a namespace changed by the fetch
 matches its signed refs exactly. -/
 theorem fetch_changed_ns_matches_sigrefs_partial (env : Env) (hw : EnvWf env) (hanc : AncWf env)
-    (cfg : Config) (L A : Refdb) (hA : cfg.refsAt = none → AdvSorted A) (k : Key)
+    (cfg : Config) (L A : Refdb) (k : Key)
     (hchanged : ¬ NsEq (fetch env cfg L A).2 L k)
     (hrad : ∀ tip b, (fetch env cfg L A).2.get (k, env.nSig) = some tip → env.blob k tip = some b →
       ∀ n, env.isRad n = true → n ≠ env.nSig → (L.get (k, n)).isSome → (b.lookup n).isSome) :
     MatchesExactly env (fetch env cfg L A).2 k := by
-  rcases fetch_changed_ns_matches_up_to_stale_rad env hw hanc cfg L A hA k with h | h
+  rcases fetch_changed_ns_matches_up_to_stale_rad env hw hanc cfg L A k with h | h
   · exact absurd h hchanged
   · obtain ⟨tip, b, h1, h2, h3, h4⟩ := h
     obtain ⟨hs, hr⟩ := (Blob.valid_iff b).mp h3
@@ -102,8 +101,8 @@ theorem fetch_failed_ns_unchanged (env : Env) (cfg : Config) (L A : Refdb) (k : 
 with a valid signature by the remote's key that names this repository (if any); the blob does not list
 `rad/sigrefs` itself; an advertised `rad/id` of the remote is listed in the blob; and the offered tip is the
 stored one or ahead of it (not behind, not diverged). -/
-theorem validated_means (env : Env) (hw : EnvWf env) (cfg : Config) (L A : Refdb)
-    (hA : cfg.refsAt = none → AdvSorted A) (k : Key) (h : Validated env cfg L A k) :
+theorem validated_means (env : Env) (hw : EnvWf env) (cfg : Config) (L A : Refdb) (k : Key)
+    (h : Validated env cfg L A k) :
     ∃ anchor stage tip b,
       specialStage env cfg (blockedOf cfg) (delegatesOf cfg anchor) (thresholdOf cfg anchor) A = .ok stage ∧
       (blockedOf cfg).contains k = false ∧
@@ -114,31 +113,14 @@ theorem validated_means (env : Env) (hw : EnvWf env) (cfg : Config) (L A : Refdb
       (L.get (k, env.nSig) = none ∨ ∃ cur, L.get (k, env.nSig) = some cur ∧
         (cur = tip ∨ env.anc cur tip = some .equal ∨ env.anc cur tip = some .ahead)) := by
   obtain ⟨anchor, stage, tip, b, _, hs, hload, hv⟩ := h
-  have hsp := specialStage_wf env cfg _ _ _ A hA hs
-  obtain ⟨hblob, hvalid, hc, hS⟩ := validated_facts hw hsp hload hv
+  obtain ⟨hblob, hvalid, hc, hsig, hid⟩ := validated_facts hw hload hv
   obtain ⟨hb, hpre, _⟩ := verdict_validated hv
   obtain ⟨hs1, hs2⟩ := (Blob.valid_iff b).mp hvalid
-  have hne : env.nId ≠ env.nSig := Nat.ne_of_lt hw.id_lt_sig
-  refine ⟨anchor, stage, tip, b, hs, hb, ?_, hblob, hs1, hs2, lookup_sig_none hc, ?_, ?_⟩
-  · have hin : (env.nSig, tip) ∈ stage.sp.refsOf k := by
-      rcases hS with h | ⟨x, h, _⟩ <;> (rw [h]; simp)
-    rcases sp_get_sig hw k (spShape_of_wf hw hsp k) with ⟨_, h⟩ | ⟨t, ht, h⟩
-    · rcases h with h | ⟨x, h⟩
-      · rw [h] at hin; simp at hin
-      · rw [h] at hin; simp at hin; exact absurd hin.1.symm hne
-    · rcases h with h | ⟨x, h⟩
-      · rw [h] at hin; simp at hin; subst hin; exact ht
-      · rw [h] at hin; simp at hin
-        rcases hin with ⟨h1, _⟩ | h1
-        · exact absurd h1.symm hne
-        · subst h1; exact ht
+  refine ⟨anchor, stage, tip, b, hs, hb, hsig, hblob, hs1, hs2, lookup_sig_none hc, ?_, ?_⟩
   · intro x hx
-    have hin : (env.nId, x) ∈ stage.sp.refsOf k := Refdb.mem_refsOf.mpr (Refdb.mem_of_get hx)
-    rcases hS with h | ⟨y, h, hl⟩
-    · rw [h] at hin; simp at hin; exact absurd hin.1 hne
-    · cases hlk : b.lookup env.nId with
-      | none => exact absurd hlk hl
-      | some _ => rfl
+    cases hlk : b.lookup env.nId with
+    | none => exact absurd hlk (hid x hx)
+    | some _ => rfl
   · rcases hpre with h | ⟨cur, h, ha⟩
     · exact Or.inl h
     · right
@@ -164,7 +146,8 @@ def env : Env :=
       if k = 0 ∧ t = 20 then some b20 else if k = 0 ∧ t = 21 then some b21
       else if k = 0 ∧ t = 22 then some b22 else none,
     anc := fun a b =>
-      if (a = 20 ∧ (b = 21 ∨ b = 22)) ∨ (a = 30 ∧ b = 31) then some .ahead else some .diverged }
+      if (a = 20 ∧ (b = 21 ∨ b = 22)) ∨ (a = 21 ∧ b = 22) ∨ (a = 30 ∧ b = 31) then some .ahead
+      else if (a = 22 ∧ b = 21) then some .behind else some .diverged }
 
 def doc : Doc := { delegates := [0], threshold := 1 }
 def cfg : Config :=
@@ -174,8 +157,12 @@ def cfg : Config :=
 def L : Refdb := [((0, 0), 10), ((0, 1), 20), ((0, 2), 30)]
 /-- The server advertises the new `rad/sigrefs` (commit 21) only. -/
 def A : Refdb := [((0, 1), 21)]
-/-- The server advertises `rad/sigrefs` (commit 22) BEFORE a diverged `rad/id`. -/
+/-- The server lists `rad/sigrefs` (commit 22) BEFORE a diverged `rad/id`. -/
 def Arev : Refdb := [((0, 1), 22), ((0, 0), 11)]
+/-- The fetcher already stores commit 22 of namespace 0. -/
+def L22 : Refdb := [((0, 0), 10), ((0, 1), 21), ((0, 2), 31)]
+/-- The server lists `rad/sigrefs` of namespace 0 twice: first the newer commit 22, then the stored 21. -/
+def Adup : Refdb := [((0, 1), 22), ((0, 1), 21)]
 
 theorem envWf : EnvWf env := by
   refine ⟨by decide, by decide, by decide, ?_⟩
@@ -194,10 +181,9 @@ theorem ancWf : AncWf env := by
   simp only [env]
   split
   · exact ⟨_, rfl, by decide⟩
-  · exact ⟨_, rfl, by decide⟩
-
-theorem advSorted : AdvSorted A := by
-  unfold AdvSorted A; simp
+  · split
+    · exact ⟨_, rfl, by decide⟩
+    · exact ⟨_, rfl, by decide⟩
 
 end Witness
 
@@ -206,11 +192,11 @@ open Witness in
 owner of namespace 0 honestly re-signs without its `refs/rad/id`; the fetch succeeds, moves `rad/sigrefs` and
 `master`, and keeps the stale, now unsigned `refs/rad/id`. All hypotheses of the theorems above hold. -/
 theorem fetch_changed_ns_matches_sigrefs_counterexample :
-    EnvWf env ∧ AncWf env ∧ AdvSorted A ∧
+    EnvWf env ∧ AncWf env ∧
     ¬ NsEq (fetch env cfg L A).2 L 0 ∧ ¬ MatchesExactly env (fetch env cfg L A).2 0 := by
   have h1 : (fetch env cfg L A).2.get (0, 1) = some 21 := by decide
   have h0 : (fetch env cfg L A).2.get (0, 0) = some 10 := by decide
-  refine ⟨envWf, ancWf, advSorted, ?_, ?_⟩
+  refine ⟨envWf, ancWf, ?_, ?_⟩
   · intro h
     have := h 1
     rw [h1] at this
@@ -227,29 +213,31 @@ theorem fetch_changed_ns_matches_sigrefs_counterexample :
     revert this; decide
 
 open Witness in
-/-- **The order hypothesis `AdvSorted` is necessary** (found by reading, not reproducible with
-`git upload-pack`, which lists references in name order): a server that lists a delegate's `rad/sigrefs`
-BEFORE a diverged `rad/id` makes `repository::update` apply the `rad/sigrefs` update and then abort
-(`Policy::Abort`): the namespace is changed — `rad/sigrefs` points at commit 22 — but `master` still points
-at the old commit 30 although the blob at 22 lists 31. -/
-theorem special_order_counterexample :
-    EnvWf env ∧ AncWf env ∧ ¬ AdvSorted Arev ∧
-    (fetch env cfg L Arev).2.get (0, 1) = some 22 ∧ env.blob 0 22 = some b22 ∧
-    (fetch env cfg L Arev).2.get (0, 2) = some 30 ∧ b22.lookup 2 = some 31 := by
-  refine ⟨envWf, ancWf, ?_, by decide, rfl, by decide, by decide⟩
-  unfold AdvSorted Arev refLt
-  simp
+/-- **Regression for the repaired defect 98aa288** (found by a failed proof: the theorems above used to need
+"a remote's `rad/id` is listed before its `rad/sigrefs`"): the server lists delegate 0's `rad/sigrefs` BEFORE
+a diverged `rad/id`. `repository::update` aborts on the `rad/id` update (`Policy::Abort`) — and since that
+update now comes first, nothing of the namespace has been applied: the outcome is an error and storage is
+unchanged. (Before the repair, `rad/sigrefs` had already moved to 22 while `master` stayed at 30.) -/
+theorem special_order_regression : fetch env cfg L Arev = (.error, L) := by rfl
+
+open Witness in
+/-- **Regression for the follow-up repair** (the other half of the dropped hypothesis: "every reference is
+listed once"): the server lists `rad/sigrefs` of namespace 0 twice, newer commit first. The last listing — the
+stored commit 21 — is the one that is recorded, verified, validated AND queued: the fetch succeeds and the
+namespace is unchanged. (Before the repair both updates were queued: `rad/sigrefs` moved to 22 while the data
+refs followed 21.) -/
+theorem duplicate_listing_regression : fetch env cfg L22 Adup = (.success [0], L22) := by rfl
 
 /-! ## Non-vacuity -/
 
 open Witness in
 /-- The hypotheses of the theorems are satisfiable by a world in which a namespace really changes and
 matches its signed refs exactly (the owner keeps signing `rad/id`: blob 22). -/
-example : EnvWf env ∧ AncWf env ∧ AdvSorted [((0, 1), 22)] ∧
+example : EnvWf env ∧ AncWf env ∧
     ¬ NsEq (fetch env cfg L [((0, 1), 22)]).2 L 0 ∧
     (fetch env cfg L [((0, 1), 22)]).2 = [((0, 2), 31), ((0, 1), 22), ((0, 0), 10)] ∧
     Validated env cfg L [((0, 1), 22)] 0 := by
-  refine ⟨envWf, ancWf, by unfold AdvSorted; simp, ?_, by decide, ?_⟩
+  refine ⟨envWf, ancWf, ?_, by decide, ?_⟩
   · intro h
     have := h 1
     revert this; decide
